@@ -65,39 +65,49 @@ class ModInfo:
         return {'id': self.id, 'name': self.name, 'extends': self.extends, 'desc': self.desc, 'rules': rules}
 
 
+_DOTTED = [False]
+
+
+def mod_name(i):
+    """Registry name of module i of the current universe (dotted in some universes: package modules
+    are then created in sys.modules as well)."""
+    return (U.PREFIX + 'p.g%d' % i) if _DOTTED[0] else (U.PREFIX + 'g%d' % i)
+
+
 def gen_universe(r):
     infos = []
+    _DOTTED[0] = r.random() < 0.15
     n_extra = r.choice([0, 0, 1, 1, 2])
     named0 = r.random() < 0.75
     x0 = r.random()
     if x0 < 0.07:
         # a binary grammar: byte literals, b"..." strings, binary regexes; inputs are bytes
         s0, g0, fixed = spec.binary_root(r, named0)
-        m0 = ModInfo(0, U.PREFIX + 'g0' if named0 else None, None, s0, g0)
+        m0 = ModInfo(0, mod_name(0) if named0 else None, None, s0, g0)
         m0.fixed_texts = fixed
     elif x0 < 0.30:
         # the feature-rich fixed grammar: clients of one run meet in the same runtime helpers
         s0, g0, fixed = spec.tour_root(r, named0)
-        m0 = ModInfo(0, U.PREFIX + 'g0' if named0 else None, None, s0, g0)
+        m0 = ModInfo(0, mod_name(0) if named0 else None, None, s0, g0)
         m0.fixed_texts = fixed
     else:
         s0, g0 = spec.gen_root(r, named0)
-        m0 = ModInfo(0, U.PREFIX + 'g0' if named0 else None, None, s0, g0)
+        m0 = ModInfo(0, mod_name(0) if named0 else None, None, s0, g0)
     infos.append(m0)
     if named0 and not m0.binary and r.random() < 0.55:
         s1, g1 = spec.gen_child(r, g0, ignore=r.choice([None, None, None, 'named']))
-        m1 = ModInfo(1, U.PREFIX + 'g1', 0, s1, g1, parent=m0)
+        m1 = ModInfo(1, mod_name(1), 0, s1, g1, parent=m0)
         infos.append(m1)
         if r.random() < 0.35:
             s2, g2 = spec.gen_child(r, g1)
-            infos.append(ModInfo(2, U.PREFIX + 'g2', 1, s2, g2, parent=m1))
+            infos.append(ModInfo(2, mod_name(2), 1, s2, g2, parent=m1))
     for _ in range(n_extra):
         if len(infos) >= 4:
             break
         i = len(infos)
         named = r.random() < 0.5
         s, g = spec.gen_root(r, named, n_rules=r.randint(2, 5))
-        infos.append(ModInfo(i, U.PREFIX + 'g%d' % i if named else None, None, s, g))
+        infos.append(ModInfo(i, mod_name(i) if named else None, None, s, g))
     # drop modules whose chain does not compile (both sides of the oracle would agree on the
     # failure and the run would explore nothing)
     good = []
@@ -340,7 +350,7 @@ class Planner:
         if named_roots and choice < 0.35:
             parent = r.choice(sorted(named_roots, key=lambda m: m.id))
             s, g = spec.gen_child(r, parent.gen)
-            info = ModInfo(next_id, U.PREFIX + 'g%d' % next_id, parent.id, s, g, parent=parent)
+            info = ModInfo(next_id, mod_name(next_id), parent.id, s, g, parent=parent)
         elif victims and 'name_reuse' in kinds and choice < 0.6:
             victim = r.choice(sorted(victims, key=lambda m: m.id))
             s, g = spec.gen_root(r, True, n_rules=r.randint(2, 4))
@@ -349,7 +359,7 @@ class Planner:
         else:
             named = r.random() < 0.6
             s, g = spec.gen_root(r, named, n_rules=r.randint(2, 4))
-            info = ModInfo(next_id, U.PREFIX + 'g%d' % next_id if named else None, None, s, g)
+            info = ModInfo(next_id, mod_name(next_id) if named else None, None, s, g)
         op = {'op': 'compile', 'mod': next_id, 'desc': info.desc, 'name': info.name, 'extends': info.extends}
         if 'ctor_fail' in kinds and r.random() < 0.25:
             # a construction that fails half-way: a Python section that raises at exec time
